@@ -918,7 +918,10 @@ func ruleErrorDiscipline(p *Prog, r *Report, rule string, pkgs map[string]bool, 
 			continue
 		}
 		if fileSuffix != "" && !strings.HasSuffix(p.Fset.Position(d.Site.In.Pos()).Filename, fileSuffix) {
-			continue
+			// the merge code is what MergeSpoc reaches in its package, whatever file it stands in
+			if fileSuffix != "config.go" || !mergeReach(p)[rootOf(fn)] {
+				continue
+			}
 		}
 		name := d.Site.calleeName()
 		total++
@@ -1665,4 +1668,46 @@ func ruleDeferredErrorPreserved(p *Prog, r *Report, pkgs map[string]bool) {
 		}
 	}
 	r.note("R09.11: %d deferred assignments to named error results", n)
+}
+
+var mergeReachCache map[*ssa.Function]bool
+
+// mergeReach: the top-level functions of a package that its MergeSpoc method reaches
+// through calls inside the package.
+func mergeReach(p *Prog) map[*ssa.Function]bool {
+	if mergeReachCache != nil {
+		return mergeReachCache
+	}
+	out := map[*ssa.Function]bool{}
+	var visit func(f *ssa.Function, pkg string)
+	visit = func(f *ssa.Function, pkg string) {
+		f = rootOf(f)
+		if out[f] || pkgOfFunc(f) != pkg || len(f.Blocks) == 0 {
+			return
+		}
+		out[f] = true
+		var all []*ssa.Function
+		var collect func(g *ssa.Function)
+		collect = func(g *ssa.Function) {
+			all = append(all, g)
+			for _, a := range g.AnonFuncs {
+				collect(a)
+			}
+		}
+		collect(f)
+		for _, g := range all {
+			for _, cs := range callsOf(g) {
+				for _, cal := range calleesOfSite(p, cs) {
+					visit(cal, pkg)
+				}
+			}
+		}
+	}
+	for _, f := range allModFuncs(p) {
+		if f.Name() == "MergeSpoc" && f.Parent() == nil {
+			visit(f, pkgOfFunc(f))
+		}
+	}
+	mergeReachCache = out
+	return out
 }
